@@ -511,6 +511,8 @@ def run(ctx):
     ctx.run_rule('C01.2i', 'T8', 'the dictionary key check looks at each struct once per dictionary, not once per path to it', r_key_check_memoised, prog)
     ctx.run_rule('C01.2f', 'T10', 'fresh search state per root; candidates scan on every path (argument of SCCs all_base_interfaces, cycle_detector)', c05.r_search_state_and_identity, prog)
     ctx.run_rule('C01.2g', 'T8', 'the reference directory walk enters every directory once (argument of SCC directory_walk)', _c17.r_directory_walk_once, prog)
+    import perfile as _perfile
+    ctx.run_rule('C01.5c', 'T2', 'a file that failed to parse leaves no names behind: scopes cleared and the name table put back, on every path to the next file', _perfile.r_failed_file_leaves_no_names, prog)
     ctx.run_rule('C01.5b', 'T4', 'lints of a file that failed to parse cannot lead to dangling members (argument of the WeakPtr::borrow ledger entry)', r_failed_parse_scopes, prog)
     ctx.run_rule('C01.3d', 'T9', 'alias chain loop: membership exit and growing chain (loop ledger variant)', c05.r_alias_loop, prog)
     ctx.run_rule('C01.3a', 'T9', 'every loop consumes on every path round it, or is in the loop ledger with its progress calls', r_loops, prog)
